@@ -337,7 +337,46 @@ def svd_point_fails(case):
     return None
 
 
+def workarray_drivers_fail(case):
+    """f(x) = sum((x^2 + 3x)^2) accumulated in a work array wrapped by hand (acc = Function(zeros); acc += x*x; acc += 3*x --
+    two updates of the same entries, the first reading the old content): every driver, at points other than the recording
+    point and repeatedly, returns the analytic derivatives"""
+    xr = np.array(case['rec'])
+    cg = algopy.CGraph()
+    fx = algopy.Function(xr.copy())
+    # the work array holds Taylor polynomials with the (D, P) = (1, 1) of the gradient driver; owning / non-owning storage
+    buf = np.zeros((2, 1, 1, xr.size))[0] if case.get('view') else np.zeros((1, 1, xr.size))
+    acc = algopy.Function(UTPM(buf))
+    if case.get('through_view'):
+        lo, hi = acc[:1], acc[1:]
+        lo += fx[:1] * fx[:1]
+        hi += fx[1:] * fx[1:]
+    else:
+        acc += fx * fx
+    acc += 3.0 * fx
+    fy = algopy.sum(acc * acc)
+    cg.trace_off()
+    cg.independentFunctionList = [fx]
+    cg.dependentFunctionList = [fy]
+    for x in case['pts']:
+        x = np.array(x)
+        u = x * x + 3 * x
+        g = 2 * u * (2 * x + 3)
+        H = np.diag(2 * (2 * x + 3) ** 2 + 4 * u)
+        v = np.array(case['v'])
+        try:
+            got = {'gradient': (cg.gradient(x), g), 'gradient-again': (cg.gradient(x), g), 'vec_jac': (cg.vec_jac(np.array([2.0]), x), 2 * g)}
+        except Exception as ex:
+            return 'workarray-drivers-exception: %s' % (str(ex).strip().splitlines()[-1][:100])
+        for k, (a, b) in got.items():
+            if not close(np.asarray(a, dtype=float), np.asarray(b, dtype=float), 1e-9):
+                return 'workarray-drivers-%s: differs from the analytic derivative of sum((x^2+3x)^2) at %s (work array wrapped by hand)' % (k, x.tolist())
+    return None
+
+
 def replay_case(ctx, case):
+    if case.get('op') == 'workarray-drivers':
+        return workarray_drivers_fail(case)
     if case.get('op') == 'svd-point':
         return svd_point_fails(case)
     if case.get('op') == 'poly':
@@ -378,6 +417,15 @@ def run(ctx):
         f = svd_point_fails(case)
         if f:
             ctx.report(case, 'failure', f)
+    for view in (False, True):
+        for through_view in (False, True):
+            case = {'op': 'workarray-drivers', 'view': view, 'through_view': through_view, 'rec': rand_coeffs(rng, (2,), -2, 2),
+                    'pts': [rand_coeffs(rng, (2,), -2, 2) for _ in range(3)], 'v': rand_coeffs(rng, (2,), -1, 1)}
+            ctx.evaluations += 1
+            ctx.count('hand-wrapped-work-array')
+            f = workarray_drivers_fail(case)
+            if f:
+                ctx.report(case, 'failure', f)
     for i in range(12 if ctx.tier == 'quick' else 120):
         case = higham_case(rng, [(0.005, 1.5), (0.005, 0.6), (0.1, 1.5), (0.1, 2.0), (1.5, 0.005)][i] if i < 5 else None)
         ctx.evaluations += 1
